@@ -5,6 +5,7 @@
    usage: regress.py [seeded|refactors|all] [ids...]"""
 import json, os, subprocess, sys, tempfile, shutil, concurrent.futures as cf
 ENV = dict(os.environ, GOFLAGS="-mod=mod", GOPROXY="off", GOSUMDB="off", GOTOOLCHAIN="local", GOWORK="off", SPECVET_NOREPLAY="1")
+BIN = os.environ.get("REGRESS_BIN", "/verif/bin/specvet")
 def run(kind, sid):
     d = tempfile.mkdtemp(prefix="regress.")
     try:
@@ -12,7 +13,7 @@ def run(kind, sid):
         r = subprocess.run(f"patch -p1 -s < /verif/{kind}/{sid}/patch.diff", shell=True, cwd=d, capture_output=True, text=True)
         if r.returncode: return kind, sid, "PATCH-FAILS", {}
         if subprocess.run("go build ./...", shell=True, cwd=d, env=ENV, capture_output=True).returncode: return kind, sid, "NO-COMPILE", {}
-        out = subprocess.run(f"/verif/bin/specvet -all -repo {d}", shell=True, env=ENV, capture_output=True, text=True).stdout
+        out = subprocess.run(f"{BIN} -all -repo {d}", shell=True, env=ENV, capture_output=True, text=True).stdout
         flagged = {}
         for l in out.splitlines():
             parts = l.split()
@@ -38,7 +39,11 @@ with cf.ThreadPoolExecutor(8) as ex:
             own = meta["breaks_property"]
             status = "caught-by-own" if own in flagged else ("caught-by-other" if flagged else "MISSED")
             print(f"seeded   {sid:7s} {st:12s} {status:16s} {sorted(flagged)}")
-            if os.environ.get("REGRESS_UPDATE_META"):
+            if os.environ.get("REGRESS_FIRST_CONTACT"):
+                # records what the checker flagged before it was strengthened on this change (run with the older binary)
+                meta["first_contact_flagged_by"] = {p: sorted(set(k))[:4] for p, k in sorted(flagged.items())}
+                json.dump(meta, open(f"/verif/seeded/{sid}/meta.json", "w"), indent=1)
+            elif os.environ.get("REGRESS_UPDATE_META"):
                 meta["flagged_by"] = {p: sorted(set(k))[:4] for p, k in sorted(flagged.items())}
                 meta["caught"] = bool(flagged); meta["caught_by_own_property"] = own in flagged
                 json.dump(meta, open(f"/verif/seeded/{sid}/meta.json", "w"), indent=1)
